@@ -102,7 +102,12 @@ def named_const(eng, c, path):
     segs = path.split('::')
     if tail == 'MAX' or tail == 'MIN':
         from engine import int_ty
+        import re as _re
         it = int_ty(segs[-2]) if len(segs) >= 2 else None
+        if it is None:
+            m = _re.search(r'<impl (\w+)>::(?:MAX|MIN)$', c)
+            if m:
+                it = int_ty(m.group(1))
         if it:
             bits, sg = it
             if tail == 'MAX':
